@@ -15,6 +15,9 @@
             signal over 2 modules x 2 domains, with and without an instance output; bit-disjoint drivers accepted.
  early      `Module._add_statement`: SyntaxError iff some bit is already driven from another domain of the same
             module (enumerated sequences of slice/domain pairs).
+ dfs        BOUNDED, small scope: the real `check_comb_cycles` on EVERY netlist of N <= 3 (4 thorough) nets -- all groupings
+            into cells, each per-bit or word-level, every edge relation -- raises CombinationalCycle iff the net graph
+            has a cycle and nothing else.
  connect    `NetlistEmitter.connect` contract: DriverConflict iff some left net is already connected; otherwise the
             connection map is extended by exactly the zipped pairs (exhaustive over small net lists).
 """
@@ -60,6 +63,7 @@ def tasks(tier):
     ts = [("edges", kind, W) for kind in ("unary", "binary", "mux", "part", "match", "assignlist", "readport", "iobuffer")]
     ts += [("cycles", k) for k in range(0, len(cycle_designs()), 8)]
     ts += [("drivers",), ("early",), ("connect",)]
+    ts += [("dfs", n) for n in ((1, 2, 3) if tier == "quick" else (1, 2, 3, 4))]
     return ts
 
 
@@ -515,6 +519,106 @@ def check_connect():
                      "failures": 0 if ok else 1}]}
 
 
+# ------------------------------------------------------------------------------------------------
+# the graph search itself, on ALL graphs of a small scope: fake cells (real Cell subclasses) over N nets
+
+def _partitions(n):
+    """ordered partitions of n nets into cells (compositions)"""
+    if n == 0:
+        yield ()
+        return
+    for first in range(1, n + 1):
+        for rest in _partitions(n - first):
+            yield (first,) + rest
+
+
+def check_dfs_small_scope(N):
+    """`Netlist.check_comb_cycles` on every netlist of N nets grouped into cells in every way, every cell per-bit or
+    word-level, and EVERY edge relation the cell kind allows (per-bit: any subset of nets per output; word-level: one
+    subset shared by all outputs of the cell): CombinationalCycle iff the net graph has a cycle, nothing else raised."""
+    from amaranth.hdl import _nir
+
+    class FakeCell(_nir.Cell):
+        def __init__(self, width, per_bit, edges):
+            super().__init__(0, src_loc=None)
+            self.width, self.per_bit, self.edges = width, per_bit, edges      # edges: per output bit -> tuple of nets
+
+        def input_nets(self):
+            return {n for e in self.edges for n in e}
+
+        def output_nets(self, self_idx):
+            return {_nir.Net.from_cell(self_idx, b) for b in range(self.width)}
+
+        def resolve_nets(self, netlist):
+            pass
+
+        def comb_edges_to(self, bit):
+            for n in self.edges[bit]:
+                yield (n, None)
+
+        def comb_edges_is_per_bit(self):
+            return self.per_bit
+    cases = 0
+    bad = None
+    for part in _partitions(N):
+        # net k lives in cell index (1 + position), bit offset
+        nets = []
+        for ci, w in enumerate(part):
+            nets += [_nir.Net.from_cell(1 + ci, b) for b in range(w)]
+        subsets = [tuple(nets[k] for k in range(N) if (m >> k) & 1) for m in range(1 << N)]
+        for flags in itertools.product((False, True), repeat=len(part)):
+            # number of independent edge sets: per-bit cell -> one per output, word-level cell -> one
+            slots = sum(w if f else 1 for w, f in zip(part, flags))
+            for choice in itertools.product(range(1 << N), repeat=slots):
+                cases += 1
+                nl = _nir.Netlist()
+                nl.add_module(None, ("top",))
+                graph = {}
+                pos = 0
+                k = 0
+                for ci, (w, f) in enumerate(zip(part, flags)):
+                    if f:
+                        edges = [subsets[choice[k + b]] for b in range(w)]
+                        k += w
+                    else:
+                        edges = [subsets[choice[k]]] * w
+                        k += 1
+                    nl.add_cell(FakeCell(w, f, edges))
+                    for b in range(w):
+                        graph[nets[pos + b]] = set(edges[b])
+                    pos += w
+                # reference: cycle in the net graph
+                color = {}
+
+                def dfs(n):
+                    color[n] = 1
+                    for m2 in graph[n]:
+                        c = color.get(m2)
+                        if c == 1 or (c is None and dfs(m2)):
+                            return True
+                    color[n] = 2
+                    return False
+                want = any(color.get(n) is None and dfs(n) for n in nets)
+                try:
+                    nl.check_comb_cycles()
+                    got = False
+                except _nir.CombinationalCycle:
+                    got = True
+                except Exception as e:
+                    got = f"{type(e).__name__}: {e}"
+                if got != want and bad is None:
+                    bad = {"cells (widths)": part, "per-bit flags": flags,
+                           "edges (net <- nets)": {int(n): sorted(int(x) for x in graph[n]) for n in nets},
+                           "reference": "cycle" if want else "no cycle", "check_comb_cycles": "CombinationalCycle" if got is True else ("accepted" if got is False else got),
+                           "how": "real Netlist.check_comb_cycles on a netlist of stub cells (Cell subclasses) with these edges"}
+    ok = bad is None
+    return {"task": f"dfs-small-scope[{N}]", "paths": cases, "solver_s": 0.0, "obligations": [
+        {"name": f"dfs-small-scope::all-netlists-of-{N}-nets", "kind": "bounded", "status": "proved" if ok else "refuted", "backend": "closed(exhaustive)",
+         "time_s": 0.0, **({} if ok else {"failing_input": bad})}],
+        "bounded": [{"name": "check_comb_cycles graph search, small scope", "bound": f"every netlist of {N} nets: all groupings into cells, per-bit/word-level, all edge relations",
+                     "cases": cases, "failures": 0 if ok else 1}]}
+
+
 def run_task(task):
     k = task[0]
     if k == "edges":
@@ -527,6 +631,8 @@ def run_task(task):
         return check_early()
     if k == "connect":
         return check_connect()
+    if k == "dfs":
+        return check_dfs_small_scope(task[1])
     if k == "canary-edges":
         return check_edges("mux", 2, broken=True)
     raise KeyError(k)
